@@ -380,3 +380,24 @@ Fixpoint lex_leb (a b : list N) : bool :=
   | _ :: _, [] => false
   | x :: a', y :: b' => if N.ltb x y then true else if N.eqb x y then lex_leb a' b' else false
   end.
+
+(* ---------- saving a PERSISTED data set (rdd.persist() / cache(), PersistedRDD.compute) ----------
+   PersistedRDD.compute materialises the whole partition (list(prev.compute(...))) and only then stores it; later
+   computations of that partition are served from the cache.  For the save this is a transformation of the plan:
+   - partitions already materialised before the save (by take(k): the shortest prefix of partitions holding k
+     elements, [take_visits]) are never computed again, so their compute faults cannot fire;
+   - within a task, attempt a computes the partition only if every earlier attempt failed while computing it
+     (an attempt whose computation succeeded has cached it, even if its write then failed). *)
+Fixpoint take_visits (sizes : list nat) (k : nat) : nat :=
+  match k with
+  | 0 => 0
+  | S _ => match sizes with
+           | [] => 0
+           | sz :: r => S (take_visits r (k - sz))
+           end
+  end.
+
+Definition persist_plan (cached : nat) (p : plan) : plan :=
+  mkplan (wf p) (wc p)
+         (fun i a => negb (Nat.ltb i cached) && cf p i a && forallb (fun a' => cf p i a') (seq 1 (a - 1)))
+         (cc p) (cl p).
